@@ -31,6 +31,10 @@ def run(ctx):
                 "they all wrap does not. Reviewed deviations are listed with their reason.")
     ns = effi.check_siblings(ctx, F)
     ctx.floor("E-FFI.siblings", "groups of sibling C functions, conversions and constants compared", ns, 78)
+    ctx.explain("E-FFI.status: C functions reporting success as bool return false only on the error side and true only on the success "
+                "side of handle_err_or_init, which itself maps Ok to Some and Err to None.")
+    nst = effi.check_status_results(ctx, F)
+    ctx.floor("E-FFI.status", "status-returning functions and the helper", nst, 2)
     ctx.explain("E-FFI.empty: the EMPTY / INVALID constants the C interface hands out for 'no result' have zero length / "
                 "capacity fields and null pointers (C callers test exactly these fields).")
     effi.check_empty_consts(ctx, F)
